@@ -543,7 +543,7 @@ func SkipRows(fn *ssa.Function) []string {
 				total++
 			}
 		}
-		if total >= 2 {
+		if total >= 1 {
 			for _, b := range fn.Blocks {
 				prev := ""
 				for k, name := range steps[b] {
